@@ -2,6 +2,7 @@
 pub mod cli;
 pub mod configs;
 pub mod emit;
+pub mod functionals;
 pub mod prog;
 pub mod sym;
 pub mod trace;
